@@ -82,7 +82,15 @@ def list_from(engine, st, fr, src, kind="list"):
     if isinstance(src, TupleV):
         return new_list(engine, st, src.items, kind)
     if isinstance(src, ArgPack):
-        raise Unsupported("list(*args pack)")
+        # list(args): same length, same elements in the same positions
+        from .b_names import pk_len, pk_nth
+        out = new_container(engine, st, kind, None)
+        oid = Val.id(out.t)
+        i = z3.Int("i!pk")
+        st.put("$at", oid, z3.Lambda([i], pk_nth(src.t, i)))
+        st.put("$len", oid, pk_len(src.t))
+        st.assume(pk_len(src.t) >= 0)
+        return out
     if isinstance(src, Z) and isinstance(src.ty, tuple) and src.ty[0] in ("list", "deque", "tuple"):
         out = new_container(engine, st, kind, elem_type(src.ty))
         oid = Val.id(out.t)
@@ -311,7 +319,19 @@ def list_method(engine, st, fr, o, kind, name, args, kwargs, node):
             # to_check.extend(kwargs.values()) with a KwDict: known values only when base is None
             kd = st.objreg[engine.concrete_id(src.t)]
             if kd.base is not None:
-                raise Unsupported("extend with symbolic kwargs values")
+                if kd.known:
+                    raise Unsupported("extend with partly symbolic kwargs values")
+                # values() of a symbolic **kwargs: some enumeration of its values, one per (distinct) key
+                from .b_names import kw_get
+                m = fresh("kw_n", I)
+                keys = fresh("kw_keys", z3.ArraySort(I, I))
+                p, q = z3.Ints("i!kw j!kw")
+                st.assume(m >= 0)
+                st.assume(z3.ForAll([p, q], z3.Implies(z3.And(p >= 0, p < q, q < m), z3.Select(keys, p) != z3.Select(keys, q))))
+                st.put("$at", oid, z3.Lambda([i], z3.If(i < n, z3.Select(at, i), kw_get(kd.base, z3.Select(keys, i - n)))))
+                st.put("$len", oid, n + m)
+                yield st, None
+                return
             cur = st
             for v in kd.known.values():
                 for cur, _ in list_method(engine, cur, fr, o, kind, "append", [v], {}, node):
